@@ -129,6 +129,8 @@ def expected_output(asl, value, oracle=None):
     oracle = oracle or {}
 
     def run(m, v):
+        if set(m) - {"StartAt", "States", "Comment"}:
+            raise NotPlain("machine-level " + ",".join(sorted(set(m) - {"StartAt", "States", "Comment"})))
         name = m["StartAt"]
         for _ in range(200):
             st = m["States"][name]
@@ -153,6 +155,8 @@ def expected_output(asl, value, oracle=None):
                 pass
             else:
                 raise NotPlain(name)
+            if len(json.dumps(v)) > 200000:
+                raise NotPlain("near the data quota")
             if st.get("End") or t == "Succeed":
                 return v
             name = st["Next"]
